@@ -61,10 +61,12 @@ def unsorted_in(v, t):
 
 def history(rng, kt, universe, length):
     """A program: starts from a literal or empty set and map, applies `length` operations, threading observations."""
-    vt = T.NAT
+    vt = rng.choice([T.NAT, T.STRING, T.BOOL, T.BYTES, T.list_(T.NAT), T.option(T.NAT)])
+    vals = {'nat': [0, 1, 7, 99], 'string': ['', 'a', ''], 'bool': [False, True, False], 'bytes': [b'', b'\x00', b''], 'list': [[], [1], []],
+            'option': [None, ('Some', 0), None]}[vt[0]]
     st, mt = T.set_(kt), T.map_(kt, vt)
     init = O.sort_unique(kt, rng.sample(universe, rng.randint(0, min(3, len(universe)))))
-    code = [PUSH(mt, [(k, i) for i, k in enumerate(init)]) if rng.random() < 0.7 else I('EMPTY_MAP', TY(kt), TY(vt)),
+    code = [PUSH(mt, [(k, vals[i % len(vals)]) for i, k in enumerate(init)]) if rng.random() < 0.7 else I('EMPTY_MAP', TY(kt), TY(vt)),
             PUSH(st, init) if rng.random() < 0.7 else I('EMPTY_SET', TY(kt))]
     # stack: set : map ; observations are accumulated below by DUG
     nobs = 0
@@ -79,7 +81,7 @@ def history(rng, kt, universe, length):
             code += [I('DUP'), PUSH(kt, k), I('MEM'), I('DUG', N(2 + nobs))]
             nobs += 1
         elif op in ('map.put', 'map.del'):
-            code += [I('SWAP'), PUSH(T.option(vt), ('Some', rng.randint(0, 99)) if op == 'map.put' else None), PUSH(kt, k), I('UPDATE'), I('SWAP')]
+            code += [I('SWAP'), PUSH(T.option(vt), ('Some', rng.choice(vals)) if op == 'map.put' else None), PUSH(kt, k), I('UPDATE'), I('SWAP')]
         elif op == 'map.get':
             code += [I('DUP', N(2)), PUSH(kt, k), I('GET'), I('DUG', N(2 + nobs))]
             nobs += 1
@@ -87,7 +89,7 @@ def history(rng, kt, universe, length):
             code += [I('DUP', N(2)), PUSH(kt, k), I('MEM'), I('DUG', N(2 + nobs))]
             nobs += 1
         elif op == 'map.gau':
-            code += [I('SWAP'), PUSH(T.option(vt), rng.choice([None, ('Some', rng.randint(0, 99))])), PUSH(kt, k), I('GET_AND_UPDATE'),
+            code += [I('SWAP'), PUSH(T.option(vt), rng.choice([None, ('Some', rng.choice(vals))])), PUSH(kt, k), I('GET_AND_UPDATE'),
                      I('DUG', N(2 + nobs)), I('SWAP')]
             nobs += 1
         elif op == 'size':
@@ -100,7 +102,7 @@ def history(rng, kt, universe, length):
             code += [I('NIL', TY(T.pair(kt, vt))), I('DUP', N(3)), I('ITER', [I('CONS')]), I('DUG', N(2 + nobs))]
             nobs += 1
         elif op == 'map.map':
-            code += [I('SWAP'), I('MAP', [I('CDR'), PUSH(vt, 1), I('ADD')]), I('SWAP')]
+            code += [I('SWAP'), I('MAP', [I('CDR')] + ([PUSH(vt, 1), I('ADD')] if vt == T.NAT else [])), I('SWAP')]
     return code, ops
 
 
